@@ -431,5 +431,5 @@ def fn(case, ctx):
                     break
 
 
-SUBCHECKS = [SubCheck("normalise", raw_case(), fn, quick=800, thorough=4000)]
+SUBCHECKS = [SubCheck("normalise", raw_case(), fn, quick=2400, thorough=4000)]
 MATCHERS = {}
